@@ -142,7 +142,7 @@ def tie_acceptance(ctx):
         bag.add(P, cc.term_forward(P, obs), ("wshape1", wshape), True, cc.oracle_forward(P, obs))
     # fold with inconsistent argument shapes
     gf = dict(N=1, C=1, H=2, W=6, kH=2, kW=2, sH=1, sW=1, pH=0, pW=0, dH=1, dW=1)      # lH*lW = 5, C*kH*kW = 4
-    for yshape in [(1, 4, 5), (1, 4, 6), (1, 4, 4), (1, 8, 5), (1, 3, 5), (1, 5, 4), (2, 4, 5)]:
+    for yshape in [(1, 4, 5), (1, 4, 6), (1, 4, 4), (1, 8, 5), (1, 3, 5), (1, 5, 4), (2, 4, 5), (1, 10, 2), (2, 5, 2), (1, 4, 0)]:
         P = {"op": "fold", "g": dict(gf, N=yshape[0], C=yshape[1] // 4), "form": "tuple", "y": cc.ints(rng, yshape).tolist()}
         obs = _observe(P)
         v = cc.oracle_forward(P, obs)
@@ -150,6 +150,12 @@ def tie_acceptance(ctx):
             v = {"expected": "raises (dimension 1 = %d is not C*kH*kW for kernel (2,2))" % yshape[1],
                  "observed": {"shape": list(obs[1].shape), "values": cc.tolist(obs[1])}, "note": "F.fold accepts an argument whose shape is inconsistent with the kernel"}
         bag.add(P, cc.term_forward(P, obs), ("foldshape", yshape), True, v)
+    # an empty geometry (kernel larger than the output) with an argument that has no columns: element counts agree (0 = 0)
+    ge = dict(N=1, C=1, H=1, W=1, kH=2, kW=2, sH=1, sW=1, pH=0, pW=0, dH=1, dW=1)
+    for yshape in [(1, 4, 0), (2, 4, 0)]:
+        P = {"op": "fold", "g": dict(ge, N=yshape[0]), "form": "tuple", "y": cc.ints(rng, yshape).tolist()}
+        obs = _observe(P)
+        bag.add(P, cc.term_forward(P, obs), ("foldempty", yshape), True, cc.oracle_forward(P, obs))
     ctx.extra["acceptance_cases"] = len(bag.terms)
     _finish_tie(ctx, bag, "convpool/acceptance+rejection", "acc", lambda P: "nn.functional." + P["op"],
                 lambda P: "fold-inconsistent-shape" if P["op"] == "fold" else "acceptance",
